@@ -16,6 +16,9 @@ impl BlockingModel {
     pub fn has_blocked_clients(&self, db: usize, key: &[u8]) -> (r: bool)
         ensures r == (waiting(*self, db, key@).len() > 0),
     { unimplemented!() }
+    /// whether the wake-up queue is non-empty (reads only)
+    #[verifier::external_body]
+    pub fn has_pending_wakeups(&self) -> (r: bool) { unimplemented!() }
     /// one call wakes exactly the first waiter of the key (FIFO) if there is one
     #[verifier::external_body]
     pub fn notify_key_ready(&mut self, db: usize, key: &[u8])
@@ -66,6 +69,11 @@ pub open spec fn push_notifies(o: Server, f: Server, parts: Seq<RespFrame>, db: 
 }
 
 impl Server {
+    /// MODEL: Server::process_wakeups serves blocked clients (pops for them and replies) — not something a push may do
+    #[verifier::external_body]
+    fn process_wakeups(&mut self) -> (r: Result<bool>)
+        ensures final(self).served_inline@ == old(self).served_inline@ + 1,
+    { unimplemented!() }
 //@@ unit notify_list_push fn src/network/server.rs Server::notify_list_push
 //@@   rewrite R3
 //@@   params drop "&self" add "&mut self"
